@@ -84,8 +84,14 @@ def s_decide(ex, st, fr, text, args):
         d = script[pos] if pos < len(script) else 0
         d = min(d, n.v - 1)
         return choose(d)(st)
+    # stated bound: at most MAX_DYN dynamic decisions inside one next() call (longer decision
+    # histories inside a single call are outside the claim; across calls they are unbounded by induction)
+    if len(st.aux.get('decisions', ())) - st.aux.get('dec_base', 0) >= MAX_DYN[0]:
+        return Fork([])
     return Fork([(None, choose(d)) for d in range(n.v)])
 
+
+MAX_DYN = [2]
 
 HARNESS_SUMMARIES = [
     (re.compile(r'(^|::)vlog$'), s_vlog),
@@ -157,6 +163,8 @@ class StepHarness:
         self.F = fields or lexer_fields(prog)
         self.comp = d.compiled()
         self.part = self.comp.part
+        self.nl_class = self.part.class_of(10)
+        self.tab_class = self.part.class_of(9)
         self.stats = {'paths': 0, 'ref_outcomes': 0, 'queries': 0, 'covers': {}}
         self.entry = None
         self._loc_cache = {}
@@ -184,23 +192,32 @@ class StepHarness:
     def loc_value(self, line, col, byte):
         return A((S(32, line), S(32, col), S(64, byte)))
 
-    def loc_at(self, pos):
-        """reference location of input position pos (z3 Int terms), scanning from L"""
-        if pos in self._loc_cache:
-            return self._loc_cache[pos]
+    def loc_at(self, pos, syms=None):
+        """reference location of input position pos (z3 Int terms), scanning from L.  With the class
+        word `syms` of the enumerated reference behaviour the newline / tab case split is already
+        decided (newline and tab are classes of their own), so the terms are plain sums."""
+        key = (pos, tuple(syms.get(j) for j in range(pos)) if syms is not None else None)
+        if key in self._loc_cache:
+            return self._loc_cache[key]
         if pos == 0:
             v = (self.Lline, self.Lcol, self.Lbyte)
         else:
-            line, col, byte = self.loc_at(pos - 1)
+            line, col, byte = self.loc_at(pos - 1, syms)
             c = self.chars[pos - 1]
             w = SM.width_value(S(32, c), 1).v
-            nl = c == 10
-            tab = c == 9
-            line2 = z3.If(nl, line + 1, line)
-            col2 = z3.If(nl, z3.IntVal(0), z3.If(tab, col + 4, col + w))
+            k = syms.get(pos - 1) if syms is not None else None
             byte2 = byte + SM.len_utf8_term(S(32, c)).v
-            v = (line2, col2, byte2)
-        self._loc_cache[pos] = v
+            if k is not None and k != EOF and k == self.nl_class:
+                v = (line + 1, z3.IntVal(0), byte2)
+            elif k is not None and k != EOF and k == self.tab_class:
+                v = (line, col + 4, byte2)
+            elif k is not None and k != EOF:
+                v = (line, col + w, byte2)
+            else:
+                nl = c == 10
+                tab = c == 9
+                v = (z3.If(nl, line + 1, line), z3.If(nl, z3.IntVal(0), z3.If(tab, col + 4, col + w)), byte2)
+        self._loc_cache[key] = v
         return v
 
     def class_cond(self, i, k):
@@ -305,6 +322,7 @@ class StepHarness:
         ex = self.ex
         ust_before = st.root()['lx'].f[0].f[self.F['user_state']]
         ndec_before = len(st.aux.get('decisions', ()))
+        st.aux['dec_base'] = ndec_before
         nxt = self.fn(self.L + '_', 'next')
         for kind, s2, val in ex.call_fn(st, nxt, [Ref(0, 'lx')]):
             self.stats['paths'] += 1
@@ -378,9 +396,14 @@ class StepHarness:
         return results
 
     # ------------------------------------------------------------------ comparison
-    def neq_loc(self, locval, pos):
-        line, col, byte = self.loc_at(pos)
+    def neq_loc(self, locval, pos, syms=None, part=None):
+        """part: None = whole Loc, 'byte' = byte index only, 'linecol' = line and column only"""
+        line, col, byte = self.loc_at(pos, syms)
         a = locval.f
+        if part == 'byte':
+            return zi(a[2]) != byte
+        if part == 'linecol':
+            return z3.Or(zi(a[0]) != line, zi(a[1]) != col)
         return z3.Or(zi(a[0]) != line, zi(a[1]) != col, zi(a[2]) != byte)
 
     def compare(self, st, val, cond, rs, item, events, info, ust_before, ndec_before, syms):
@@ -457,15 +480,17 @@ class StepHarness:
             self.cover('token')
             if info.get('rewind'):
                 self.cover('rewind')
-            sym_check({'loc'} | ({'match'} if True else set()), 'token start location differs from the reference (lexeme start %d)' % item[2], self.neq_loc(got[2], item[2]))
-            sym_check({'loc', 'match'}, 'token end location differs from the reference (lexeme end %d)' % item[3], self.neq_loc(got[3], item[3]))
+            sym_check({'loc', 'match'}, 'token start byte index differs from the reference (lexeme start %d)' % item[2], self.neq_loc(got[2], item[2], syms, 'byte'))
+            sym_check({'loc', 'match'}, 'token end byte index differs from the reference (lexeme end %d)' % item[3], self.neq_loc(got[3], item[3], syms, 'byte'))
+            sym_check({'loc'}, 'token start line/column differ from the reference scan', self.neq_loc(got[2], item[2], syms, 'linecol'))
+            sym_check({'loc'}, 'token end line/column differ from the reference scan', self.neq_loc(got[3], item[3], syms, 'linecol'))
         elif exp_kind == 'invalid':
             self.cover('invalid')
-            sym_check({'errloc'}, 'InvalidToken location is not the lexeme start', self.neq_loc(got[1], item[1]))
+            sym_check({'errloc'}, 'InvalidToken location is not the lexeme start', self.neq_loc(got[1], item[1], syms))
         elif exp_kind == 'custom':
             self.cover('custom')
             sym_check({'error'}, 'Custom error payload differs', zi(got[1]) != self.err)
-            sym_check({'errloc'}, 'Custom error location is not the lexeme start', self.neq_loc(got[2], item[1]))
+            sym_check({'errloc'}, 'Custom error location is not the lexeme start', self.neq_loc(got[2], item[1], syms))
         else:
             self.cover('none')
         # ---- action log
@@ -477,8 +502,8 @@ class StepHarness:
                 if not g.conc() or g.v != gid:
                     mm({'actions', 'match'}, 'action of rule %s ran, reference runs rule %d' % (g.v, gid))
                     break
-                sym_check({'actions', 'loc'}, 'match_loc().0 inside the action of rule %d' % gid, self.neq_loc(locs.f[0], ms_))
-                sym_check({'actions', 'loc'}, 'match_loc().1 inside the action of rule %d' % gid, self.neq_loc(locs.f[1], e_))
+                sym_check({'actions', 'loc'}, 'match_loc().0 inside the action of rule %d' % gid, self.neq_loc(locs.f[0], ms_, syms))
+                sym_check({'actions', 'loc'}, 'match_loc().1 inside the action of rule %d' % gid, self.neq_loc(locs.f[1], e_, syms))
                 # peek
                 o = Oracle(syms, ())
                 try:
@@ -522,8 +547,8 @@ class StepHarness:
             mm(asp, 'input position after the call is %d, reference %d' % (eff, rs.p))
         if not rs.done:
             asp = {'recover'} if info.get('error') else {'loc'}
-            sym_check(asp, 'match start after the call', self.neq_loc(inner.f[F['current_match_start']], rs.ms))
-            sym_check(asp, 'match end after the call', self.neq_loc(inner.f[F['current_match_end']], rs.p))
+            sym_check(asp, 'match start after the call', self.neq_loc(inner.f[F['current_match_start']], rs.ms, syms))
+            sym_check(asp, 'match end after the call', self.neq_loc(inner.f[F['current_match_end']], rs.p, syms))
         # ---- user state
         ust = inner.f[F['user_state']]
         ndec = len(st.aux.get('decisions', ())) - ndec_before
